@@ -375,3 +375,59 @@ Definition xlsx_content_type_b (lower : str -> str) (tbl : list (str * str)) (sn
   let filename := after_last SLASH image_path in
   let ext := if existsb (N.eqb DOT) filename then lower (after_last DOT filename) else [] in
   match assoc ext tbl with Some v => v | None => match sniffed with Some c => c | None => s "image/unknown" end end.
+
+(* ------------------------------------------------------------------ 7. legacy BLIP images (XLS): what happens to a slice *)
+(* util/image_utils.detect_image_type(data): signature sniffing, needs 8 bytes *)
+Inductive itype := T_png | T_jpeg | T_gif | T_bmp | T_tiff | T_emf | T_wmf.
+Definition detect_type (d : list Z) : option itype :=
+  if len d <? 8 then None
+  else if slice_is d 0 PNG_SIG then Some T_png
+  else if slice_is d 0 [255; 216; 255] then Some T_jpeg
+  else if slice_is d 0 [71; 73; 70; 56] then Some T_gif
+  else if slice_is d 0 BM then Some T_bmp
+  else if slice_is d 0 [73; 73; 42; 0] || slice_is d 0 [77; 77; 0; 42] then Some T_tiff
+  else None.
+
+Definition le32u (u : Z) : list Z := [u mod 256; (u / 256) mod 256; (u / 65536) mod 256; (u / 16777216) mod 256].
+(* util/image_utils.wrap_dib_as_bmp(dib): BITMAPINFOHEADER only; prepends the 14-byte BMP file header
+   b"BM" + struct.pack("<IHHI", 14 + len(dib), 0, 0, 14 + 40 + colour table size) *)
+Definition wrap_dib (d : list Z) : option (list Z) :=
+  if len d <? 40 then None
+  else if negb (u32le d 0 =? 40) then None
+  else let bpp := u16le d 14 in
+       if negb (existsb (Z.eqb bpp) [1; 4; 8; 16; 24; 32]) then None
+       else let ct := if bpp <=? 8 then 4 * 2 ^ bpp else 0 in
+            Some (BM ++ le32u (14 + len d) ++ [0; 0; 0; 0] ++ le32u (14 + 40 + ct) ++ d).
+
+(* xls_extractor._extract_images_from_workbook after the record walk (C01/LoopsXls.v xls_blips yields the slices):
+   detected = detect_image_type(slice); EMF/WMF records keep their bytes under a metafile type, a DIB record is wrapped
+   into a BMP file; anything else undetected is dropped *)
+Definition classify (rec_type : Z) (d : list Z) : option (itype * list Z) :=
+  match detect_type d with
+  | Some t => Some (t, d)
+  | None => if rec_type =? 61466 then Some (T_emf, d)
+            else if rec_type =? 61467 then Some (T_wmf, d)
+            else if rec_type =? 61471 then match wrap_dib d with Some b => Some (T_bmp, b) | None => None end
+            else None
+  end.
+
+Section XlsStage.
+  Variable D : Type.                       (* hashlib.sha1(image_data).hexdigest(): an oracle *)
+  Variable digest : list Z -> D.
+  Variable deq : D -> D -> bool.
+  (* digest not in seen_hashes: seen_hashes.add(digest); image_index += 1; images.append(...) *)
+  Fixpoint xls_stage (seen : list D) (k : Z) (l : list (Z * list Z)) : list (Z * itype * list Z) :=
+    match l with
+    | [] => []
+    | (rt, d) :: r =>
+        match classify rt d with
+        | None => xls_stage seen k r
+        | Some (t, b) => if existsb (deq (digest b)) seen then xls_stage seen k r
+                         else (k + 1, t, b) :: xls_stage (digest b :: seen) (k + 1) r
+        end
+    end.
+End XlsStage.
+Arguments xls_stage {D}.
+
+Definition kind_of (t : itype) : kind :=
+  match t with T_png => K_png | T_jpeg => K_jpeg | T_gif => K_gif | T_bmp => K_bmp | _ => K_other end.
